@@ -38,4 +38,10 @@ inductive TreeMode where
   | unknown    -- anything else
 deriving DecidableEq, Repr
 
+/-- what a reader does with the payload table of the document -/
+inductive LoadMode where
+  | replace    -- self.<table> = data["payload"]["<key>"]   (the whole method body is the pinned one)
+  | unknown    -- anything else (e.g. re-filing the records through add() onto whatever the object holds)
+deriving DecidableEq, Repr
+
 end PM
